@@ -100,7 +100,10 @@ structure Build where
   acts : List Act
 deriving Repr
 
-/-- `build cfg₀ [acts₀ …, rebuild cfg₁ [acts₁ …, rebuild …]]` as the chain `[(cfg₀, acts₀), (cfg₁, acts₁), …]` -/
+/-- `TestContext.config` is a plain clone of the configuration its build was given (`config.clone()` in `build_internal`; in
+particular its `app_dir` is the fixture, not the private copy handed to pack), so `context.rebuild(context.config.clone(), …)`
+is a rebuild with that same configuration: the chain then simply repeats it.
+`build cfg₀ [acts₀ …, rebuild cfg₁ [acts₁ …, rebuild …]]` as the chain `[(cfg₀, acts₀), (cfg₁, acts₁), …]` -/
 abbrev Scenario := List Build
 
 /-- injected results: global command index → the command → index among the commands of the same program → override -/
